@@ -31,7 +31,7 @@ import (
 
 func Main() {
 	mc.Main("C24", "exploration",
-		"stores {leveldb,leveldb2,leveldb3} x directories {/r,/buckets/b1,/buckets/b1/d} x entries: mime{unset,text/plain,application/octet-stream} x presence of {md5,symlink,extended,hard link id+counter,remote,ttl,user/group names} x content{none,text,gzip magic} x chunk count{0,1,2,50,51,60} x chunk flavour{plain,source fid,cipher key,compressed,manifest} x op{insert under a fresh name, update over a different entry}; read back by FindEntry, ListDirectoryEntries, ListDirectoryPrefixedEntries; oracle: filer.EqualEntry on file-id-canonicalised copies; distinct = (store, dir class, entry features, outcome)",
+		"stores {leveldb,leveldb2,leveldb3} x directories {/r,/buckets/b1,/buckets/b1/d} x entries: mime{unset,text/plain,application/octet-stream} x presence of {md5,symlink,extended,hard link id+counter,remote,ttl,user/group names} x content{none,text,gzip magic} x chunk count{0,1,2,50,51,60} x chunk flavour{plain,source fid,cipher key,compressed,manifest} x op{insert under a fresh name, update over a different entry}; plus a value domain: one attribute at a time over boundary values (13 modes, 5 times x mtime/crtime, uid/gid/ttl/filesize extremes, empty/ascii/utf-8 strings, md5, symlink, groups, extended, hard-link counter) x 2 base entries x op; read back by FindEntry, ListDirectoryEntries, ListDirectoryPrefixedEntries; oracle: filer.EqualEntry on file-id-canonicalised copies; distinct = (store, dir class, entry features, outcome)",
 		run)
 }
 
@@ -54,11 +54,12 @@ var flavourNames = []string{"plain", "source-fid", "cipher", "compressed", "mani
 var mimeVals = []string{"", "text/plain", "application/octet-stream"}
 
 type caseT struct {
-	Store string `json:"store"`
-	Dir   string `json:"dir"`
-	Op    string `json:"op"` // insert | update
-	Spec  spec   `json:"spec"`
-	Prev  *spec  `json:"prev,omitempty"` // update: the entry that was there before
+	Store string    `json:"store"`
+	Dir   string    `json:"dir"`
+	Op    string    `json:"op"` // insert | update
+	Spec  spec      `json:"spec"`
+	Prev  *spec     `json:"prev,omitempty"`  // update: the entry that was there before
+	Value *valueRef `json:"value,omitempty"` // value domain: base entry + one attribute value (Spec is unused)
 }
 
 func fid(vol uint32, key uint64, cookie uint32) string {
@@ -236,11 +237,11 @@ func features(s spec) string {
 }
 
 type sut struct {
-	kind   string
-	dir    string
-	store  filer.FilerStore
-	w      *filer.FilerStoreWrapper
-	serial uint64
+	kind     string
+	dir      string
+	store    filer.FilerStore
+	w        *filer.FilerStoreWrapper
+	serial   uint64
 	prev     map[string]*spec  // dir -> spec written by the previous step
 	prevName map[string]string // dir -> name it was written under
 }
@@ -430,14 +431,19 @@ func run(r *mc.Run) {
 		}
 		s := openSut(c.Store)
 		defer s.close()
-		_, vs, _ := s.roundTrip(c.Dir, c.Op, c.Spec, c.Prev)
+		var vs []verdict
+		if c.Value != nil {
+			_, vs = s.valueRoundTrip(c.Dir, c.Op, *c.Value)
+		} else {
+			_, vs, _ = s.roundTrip(c.Dir, c.Op, c.Spec, c.Prev)
+		}
 		for _, v := range vs {
 			r.Violate(v.class, v.msg, c, nil)
 		}
 		r.Case("replay")
 		return
 	}
-	r.Assume("times are whole seconds (the stored form is Unix seconds; filer.EqualEntry compares at that precision)")
+	r.Assume("presence domain: times are whole seconds (filer.EqualEntry compares at that precision); the value domain compares every attribute exactly, times as instants")
 	r.Assume("a chunk file id 'comes back in canonical form' if FileChunk.GetFileIdString() returns the string that was written, whether the store hands back the string field or the structured fid")
 	var units []unit
 	if r.Quick() {
@@ -457,6 +463,7 @@ func run(r *mc.Run) {
 	}
 	sps := specs(r.Quick())
 	r.Set("entries", len(sps))
+	r.Set("value_cases", len(valueCases)*len(baseSpecs)*2)
 	r.Set("store_directory_units", len(units))
 	tallies := make([]flib.Tally, len(units))
 	pends := make([][]pend, len(units))
@@ -473,7 +480,23 @@ func run(r *mc.Run) {
 				for _, v := range vs {
 					if !seen[v.class] {
 						seen[v.class] = true
-						pends[i] = append(pends[i], pend{v, caseT{u.kind, u.dir, op, sp, prev}})
+						pends[i] = append(pends[i], pend{v, caseT{u.kind, u.dir, op, sp, prev, nil}})
+					}
+				}
+			}
+		}
+		// value domain: one attribute value at a time against two base entries
+		for base := range baseSpecs {
+			for _, vc := range valueCases {
+				for _, op := range []string{"insert", "update"} {
+					ref := valueRef{vc.Attr, vc.Label, base}
+					class, vs := s.valueRoundTrip(u.dir, op, ref)
+					t.Add(class)
+					for _, v := range vs {
+						if !seen[v.class] {
+							seen[v.class] = true
+							pends[i] = append(pends[i], pend{v, caseT{Store: u.kind, Dir: u.dir, Op: op, Value: &ref}})
+						}
 					}
 				}
 			}
@@ -505,7 +528,12 @@ func run(r *mc.Run) {
 					s = openSut(p.c.Store)
 					shared[p.c.Store] = s
 				}
-				_, vs, _ := s.roundTrip(p.c.Dir, p.c.Op, p.c.Spec, p.c.Prev)
+				var vs []verdict
+				if p.c.Value != nil {
+					_, vs = s.valueRoundTrip(p.c.Dir, p.c.Op, *p.c.Value)
+				} else {
+					_, vs, _ = s.roundTrip(p.c.Dir, p.c.Op, p.c.Spec, p.c.Prev)
+				}
 				for _, v := range vs {
 					if v.class == p.v.class {
 						return true
@@ -515,6 +543,7 @@ func run(r *mc.Run) {
 			})
 		}
 	}
-	r.Sample("entry", caseT{"leveldb3", "/buckets/b1", "insert", spec{Mime: 1, Md5: true, HardLink: true, Content: 2, Chunks: 51, Flavour: 1}, nil})
-	r.Sample("entry", caseT{"leveldb", "/r", "update", spec{Extended: true, Chunks: 2, Flavour: 4}, &spec{Chunks: 60, Flavour: 2}})
+	r.Sample("entry", caseT{"leveldb3", "/buckets/b1", "insert", spec{Mime: 1, Md5: true, HardLink: true, Content: 2, Chunks: 51, Flavour: 1}, nil, nil})
+	r.Sample("entry", caseT{"leveldb", "/r", "update", spec{Extended: true, Chunks: 2, Flavour: 4}, &spec{Chunks: 60, Flavour: 2}, nil})
+	r.Sample("value", caseT{Store: "leveldb2", Dir: "/r", Op: "insert", Value: &valueRef{"mode", "setuid-0755", 1}})
 }
